@@ -81,9 +81,6 @@ static int dlopen_base_callback(struct dl_phdr_info *info, size_t size, void *ar
 		return 0;
 	if (!strcmp("linux-vdso.so.1", info->dlpi_name))
 		return 0;
-	if (!strstr(info->dlpi_name, data->filename))
-		return 0;
-
 	p = realpath(info->dlpi_name, buf);
 	if (p == NULL)
 		p = buf;
@@ -511,6 +508,10 @@ __visible_default void __cxa_guard_abort(void *guard_obj)
 	}
 }
 
+/* start of the outermost dlopen() in progress in this thread */
+static TLS int dlopen_depth;
+static TLS uint64_t dlopen_start;
+
 __visible_default void *dlopen(const char *filename, int flags)
 {
 	struct mcount_thread_data *mtdp;
@@ -519,6 +520,16 @@ __visible_default void *dlopen(const char *filename, int flags)
 		.filename = filename,
 	};
 	void *ret;
+
+	/*
+	 * a static initializer can call dlopen() again: every library that
+	 * appears while the outermost call is running (the opened one, its
+	 * dependencies, nested ones) is reported with the outermost start time
+	 * so that no record of their initializers predates it.
+	 */
+	if (dlopen_depth++ == 0)
+		dlopen_start = data.timestamp;
+	data.timestamp = dlopen_start;
 
 	/*
 	 * get timestamp before calling dlopen() so that
@@ -530,6 +541,7 @@ __visible_default void *dlopen(const char *filename, int flags)
 		mcount_hook_functions();
 
 	ret = real_dlopen(filename, flags);
+	dlopen_depth--;
 
 	if (filename == NULL)
 		return ret;
